@@ -85,8 +85,10 @@ type Result struct {
 	Trace           tls.VerifServerTrace
 	// first server hello as the client received it (parsed from the bytes read, independent of the server's trace)
 	ServerHelloSeen   bool
+	ServerHelloVers   uint16 // legacy_version field
 	ServerHelloRandom []byte
 	ServerHelloSID    []byte
+	ServerHelloSuite  uint16
 }
 
 func (r *Result) Completed() bool { return r.BuildErr == nil && r.ClientErr == nil }
@@ -235,7 +237,7 @@ func Run(o Opts) *Result {
 	if len(res.Hellos) > 1 {
 		res.Wire2, _ = ParseClientHello(res.Hellos[1])
 	}
-	_, res.ServerHelloRandom, res.ServerHelloSID, _, res.ServerHelloSeen = ServerHelloFromStream(rc.ReadBytes())
+	res.ServerHelloVers, res.ServerHelloRandom, res.ServerHelloSID, res.ServerHelloSuite, res.ServerHelloSeen = ServerHelloFromStream(rc.ReadBytes())
 	if res.AlertFromClient < 0 {
 		// a plaintext alert the server never got to read (it failed first)
 		if al := PlainAlerts(res.ClientStream); len(al) > 0 {
